@@ -55,6 +55,26 @@ func allowedFor(spans []oracle.Span, root cid.Cid, a, b int64) map[string]bool {
 	return al
 }
 
+// allowedMeasuring is allowedFor for a file whose interior nodes declare no block sizes (but do declare
+// their file size): to place a range under such a node a reader has to ask each dag-pb child for its
+// length, which costs that child's own block and nothing beneath it. So on top of the blocks the range
+// intersects, the direct children of every interior block on the way are allowed - and nothing deeper.
+func allowedMeasuring(spans []oracle.Span, root cid.Cid, a, b int64) map[string]bool {
+	al := allowedFor(spans, root, a, b)
+	onPath := map[string]bool{}
+	for _, s := range spans {
+		if !s.Leaf && al[s.Cid.String()] {
+			onPath[fmt.Sprint(s.Path)] = true
+		}
+	}
+	for _, s := range spans {
+		if len(s.Path) > 0 && onPath[fmt.Sprint(s.Path[:len(s.Path)-1])] {
+			al[s.Cid.String()] = true
+		}
+	}
+	return al
+}
+
 func checkSubset(c *mon.Case, key, what string, log []string, allowed map[string]bool) {
 	c.Count("requests_checked", 1)
 	c.Count("loads_observed", int64(len(log)))
@@ -104,11 +124,17 @@ func TestC05(t *testing.T) {
 	}
 	for _, f := range fixtures {
 		f := f
+		plainAllowed := allowedFor
+		allowedFor := allowedFor
 		if !hasSizeInfo(f.Name) {
-			// a file whose interior nodes declare no child sizes cannot be
-			// range-read without measuring children; the property is about
-			// DAGs that carry their sizes
-			continue
+			// a file whose interior nodes declare no child sizes cannot be range-read without
+			// measuring children. Where the children at least declare their own file size that
+			// costs one block per child (allowedMeasuring); where they do not, everything has to
+			// be read and there is nothing to judge
+			if strings.Contains(f.Name, "nofs") {
+				continue
+			}
+			allowedFor = allowedMeasuring
 		}
 		r.Case("file/"+f.Name, map[string]any{"fixture": f.Name, "len": len(f.Content), "root": f.Root.String()}, func(c *mon.Case) {
 			spans, _, err := walkerFor(f.St).FileSpans(f.Root)
@@ -245,11 +271,7 @@ func TestC05(t *testing.T) {
 					}
 					checkSubset(c, "C05|file-overfetch|"+[]string{"seek-start", "seek-end", "subset-matcher", "generic-root"}[form], what+" on "+f.Name, log, allowed)
 					// the reader returned the right bytes, so it must have fetched every leaf it needed
-					need := 0
-					for k := range allowed {
-						_ = k
-						need++
-					}
+					need := len(plainAllowed(spans, f.Root, a, b))
 					if form == 0 && len(uniq(log))+1 < need-countEmpty(spans, a, b) {
 						c.Harness("oracle inconsistency: bytes correct but %d distinct loads < %d needed blocks for [%d,%d) of %s", len(uniq(log)), need, a, b, f.Name)
 					}
